@@ -1,6 +1,6 @@
 """C08 — numbers are written so that they read back identically: writer callees and raw-number validation."""
 from ..facts import callee_is, op_local, op_place, op_int, FactError, norm_path
-from ..analysis import backward_slice, result_edges, return_kinds
+from ..analysis import forward_derived, backward_slice, result_edges, return_kinds
 from .c01 import short
 from . import c07
 
@@ -279,6 +279,23 @@ def r08_5(ctx):
                f"{f.name} writes through write_{ty}" + (" (or a wider writer of the same signedness)" if ty[0] in "iu" else "") if not bad else
                f"{f.name} hands its value to write_{bad[0][0]}: the text is the shortest one for another type and does not read back as the same {ty}")
     ctx.floor("R08.5", "number methods of the text serializers that call a number writer", n, 12)
+    # the same clause one level up: nowhere in the crate is an f64 narrowed to f32 on its way into a serializer / writer
+    # (`serializer.serialize_f32(f as f32)` in an impl Serialize)
+    narrowed = []
+    for f in prog.fns.values():
+        if f.crate != "sonic_rs":
+            continue
+        casts = [(b, i, s_) for b, i, s_ in f.assigns() if s_["rv"]["k"] == "cast" and s_["rv"].get("ck") == "FloatToFloat" and s_["rv"]["ty"] == "f32"]
+        if not casts:
+            continue
+        der = {s_["lhs"][0] for b, i, s_ in casts}
+        der |= forward_derived(f, der)
+        for b, t in f.calls():
+            if t["callee"].rsplit("::", 1)[-1] in ("serialize_f32", "write_f32") and any(op_local(a) in der for a in t["args"]):
+                narrowed.append((f, t))
+    ctx.ob("R08.5", "no-f64-narrowed-into-a-float-writer", not narrowed, narrowed[0][0].loc(narrowed[0][1]["ln"]) if narrowed else "",
+           "no f64 is cast to f32 on its way into serialize_f32 / write_f32" if not narrowed else
+           f"{short(narrowed[0][0].id)} casts an f64 to f32 and serializes that: the shortest f32 text does not read back as the same f64")
 
 
 def r08_s(ctx):
